@@ -532,8 +532,8 @@ class CvtFromFuzzy(Command):
 
         y1 = float(true_threshold)
         y2 = float(false_threshold)
-        x1 = FUZZY_MAX
-        x2 = FUZZY_MIN
+        x1 = float(FUZZY_MAX)  # float, so that integer-typed fuzzy data give a float result that can be scaled in place
+        x2 = float(FUZZY_MIN)
 
         result = arr - x1
         result *= y2 - y1
